@@ -281,7 +281,7 @@ def translate_item_scores(mod, src):
         forms = (t,) + tuple(alts)
         if sum(flat.count(f) for f in forms) != 1: raise Unsupported(f"ItemKNNScorer.__call__: `{t}` (expected once)")
     for t in ("sizes = np.diff(model.indptr)", "scorable = sizes >= self.config.min_nbrs", "fast = sizes <= self.config.max_nbrs", "ti_fast_mask[ti_mask] = scorable & fast",
-              "fast_mod = model[:, scorable & fast]", "slow_mat = model.T[~fast, :]", "ti_slow_mask[ti_mask] = ~fast", "slow_mat = torch.from_numpy(slow_mat.toarray())",
+              "fast_mod = model[:, scorable & fast]", "slow = scorable & ~fast", "slow_mat = model.T[slow, :]", "ti_slow_mask[ti_mask] = slow", "slow_mat = torch.from_numpy(slow_mat.toarray())",
               "(slow_trimmed, slow_inds) = torch.topk(slow_mat, self.config.max_nbrs)", "scores = np.full(len(items), np.nan, dtype=np.float32)",
               "model = model[ri_valid_nums, :]", "model = model[:, ti_valid_nums]", "model = model.tocsc()"):
         once(t, ("slow_trimmed, slow_inds = torch.topk(slow_mat, self.config.max_nbrs)",) if t.startswith("(slow_trimmed") else ())
@@ -307,7 +307,7 @@ def itemScoreT (explicit : Bool) (min_nbrs max_nbrs : Nat) (ri_vals col : List Q
   if scorable && fast then
     let fast_mod := col
     if explicit then divQ (dot ri_vals fast_mod) (sumQ fast_mod) else some (sumQ fast_mod)
-  else if !fast then
+  else if scorable && !fast then
     let slow_mat := col
     let slow_inds := topkIdx slow_mat max_nbrs
     let slow_trimmed := takeIdx slow_mat 0 slow_inds
